@@ -3,6 +3,7 @@
 package verifharness
 
 import (
+	"context"
 	"errors"
 	"fmt"
 	"sync"
@@ -11,10 +12,13 @@ import (
 	"time"
 
 	"github.com/failsafe-go/failsafe-go"
+	"github.com/failsafe-go/failsafe-go/bulkhead"
 	"github.com/failsafe-go/failsafe-go/circuitbreaker"
 	"github.com/failsafe-go/failsafe-go/fallback"
 	"github.com/failsafe-go/failsafe-go/hedgepolicy"
+	"github.com/failsafe-go/failsafe-go/ratelimiter"
 	"github.com/failsafe-go/failsafe-go/retrypolicy"
+	"github.com/failsafe-go/failsafe-go/timeout"
 )
 
 // Direct probes (Corr/Probe.v) of compositions Model/Exec.v does not cover -- a hedge policy AROUND other policies -- with
@@ -230,4 +234,423 @@ func driveSlowDelayFuncProbes(t *testing.T, name string) {
 	}
 	addProbe(w, 23, "a breaker opened by a failing execution whose delay function takes time: open for the full computed delay from the moment it opened", trials, bad, detail)
 	w.Close("a circuit breaker with a delay function that itself takes (virtual) time, opened from the closed and from the half-open state by a failing execution; RemainingDelay, refusal one tick before the end of the delay, a trial at its end. Every case is non-trivial.", nil)
+}
+
+// C06: an OnFull listener that takes time, and a permit handed back while it runs.  The refused execution stays refused (it
+// reports ErrFull and its function does not run), and nothing it does takes a permit: afterwards every permit is free.
+func driveSlowOnFullProbes(t *testing.T) {
+	w := NewCaseWriterNamed(t, "C06f", "Corr.Probe")
+	trials, bad, detail := 0, 0, ""
+	for _, cap := range []int{1, 2} {
+		for _, async := range []bool{false, true} {
+			for _, holderEnds := range []time.Duration{10 * time.Millisecond, 30 * time.Millisecond} {
+				trials++
+				synctest.Test(t, func(t *testing.T) {
+					bh := bulkhead.Builder[int](uint(cap)).OnFull(func(failsafe.ExecutionEvent[int]) { time.Sleep(20 * time.Millisecond) }).Build()
+					var wg sync.WaitGroup
+					for i := 0; i < cap; i++ { // the holders: they finish while (or after) the listener runs
+						wg.Add(1)
+						go func() {
+							defer wg.Done()
+							failsafe.NewExecutor[int](bh).Get(func() (int, error) { time.Sleep(holderEnds); return 1, nil })
+						}()
+					}
+					time.Sleep(time.Millisecond)
+					ran := false
+					var err error
+					fn := func() (int, error) { ran = true; return 2, nil }
+					if async {
+						_, err = failsafe.NewExecutor[int](bh).GetAsync(fn).Get()
+					} else {
+						_, err = failsafe.NewExecutor[int](bh).Get(fn)
+					}
+					wg.Wait()
+					time.Sleep(time.Second)
+					synctest.Wait()
+					free := 0
+					for free <= cap && bh.TryAcquirePermit() {
+						free++
+					}
+					if ran || !errors.Is(err, bulkhead.ErrFull) || free != cap {
+						bad++
+						if detail == "" {
+							detail = fmt.Sprintf("maxConcurrency %d, holders finish after %v, async %v: function ran %v, error %v, %d permits free afterwards", cap, holderEnds, async, ran, err, free)
+						}
+					}
+				})
+			}
+		}
+	}
+	addProbe(w, 24, "a full bulkhead with an OnFull listener that takes 20 ms while the holders finish: the refused execution reports ErrFull, its function does not run, every permit is free afterwards", trials, bad, detail)
+	w.Close("bulkhead OnFull listeners that take (virtual) time while permits are handed back. Every case is non-trivial.", nil)
+}
+
+// C04 / C03 (real time: goroutines queueing on the breaker's mutex are not "durably blocked", a bubble's clock would stand still):
+// state-change listeners that take time.  While the OnOpen listener of the failure that opened the breaker is still
+// running, the breaker is open for everybody else: an execution arriving meanwhile is rejected and its function does not run;
+// while an OnHalfOpen listener runs, no more trials are admitted than the half-open capacity.
+func driveSlowStateListenerProbes(t *testing.T, name string) {
+	w := NewCaseWriterNamed(t, name, "Corr.Probe")
+	trials, bad, detail := 0, 0, ""
+	for _, which := range []string{"OnOpen", "OnStateChanged", "OnHalfOpen"} {
+		for _, arrivals := range []int{1, 4} {
+			trials++
+			func() {
+				slow := func(circuitbreaker.StateChangedEvent) { time.Sleep(50 * time.Millisecond) }
+				b := circuitbreaker.Builder[int]().WithFailureThreshold(1).WithDelay(100 * time.Millisecond).WithSuccessThreshold(2)
+				switch which {
+				case "OnOpen":
+					b = b.OnOpen(slow)
+				case "OnStateChanged":
+					b = b.OnStateChanged(slow)
+				default:
+					b = b.OnHalfOpen(slow)
+				}
+				cb := b.Build()
+				var mu sync.Mutex
+				ranWhileOpen, concurrent, maxConcurrent, rejected := 0, 0, 0, 0
+				var wg sync.WaitGroup
+				arrive := func(hold time.Duration, countOpen bool) {
+					defer wg.Done()
+					_, err := failsafe.NewExecutor[int](cb).Get(func() (int, error) {
+						mu.Lock()
+						if countOpen {
+							ranWhileOpen++
+						}
+						concurrent++
+						if concurrent > maxConcurrent {
+							maxConcurrent = concurrent
+						}
+						mu.Unlock()
+						time.Sleep(hold)
+						mu.Lock()
+						concurrent--
+						mu.Unlock()
+						return 1, nil
+					})
+					if errors.Is(err, circuitbreaker.ErrOpen) {
+						mu.Lock()
+						rejected++
+						mu.Unlock()
+					}
+				}
+				if which == "OnHalfOpen" {
+					cb.Open()
+					time.Sleep(120 * time.Millisecond) // the delay has elapsed: the next arrival half-opens the breaker (slow listener), capacity 2
+					for i := 0; i < 2+arrivals; i++ {
+						wg.Add(1)
+						go arrive(200*time.Millisecond, false)
+						time.Sleep(5 * time.Millisecond)
+					}
+					wg.Wait()
+					if maxConcurrent > 2 || rejected != arrivals {
+						bad++
+						if detail == "" {
+							detail = fmt.Sprintf("slow OnHalfOpen listener, %d arrivals: %d trials at once (capacity 2), %d rejected", 2+arrivals, maxConcurrent, rejected)
+						}
+					}
+					return
+				}
+				wg.Add(1)
+				go func() { // the failure that opens the breaker; its listener takes 50 ms
+					defer wg.Done()
+					failsafe.NewExecutor[int](cb).Get(func() (int, error) { return 0, errors.New("failed") })
+				}()
+				time.Sleep(10 * time.Millisecond)
+				for i := 0; i < arrivals; i++ {
+					wg.Add(1)
+					go arrive(time.Millisecond, true)
+					time.Sleep(5 * time.Millisecond)
+				}
+				wg.Wait()
+				if ranWhileOpen != 0 || rejected != arrivals {
+					bad++
+					if detail == "" {
+						detail = fmt.Sprintf("slow %s listener, %d arrivals while it runs: %d functions ran, %d rejected", which, arrivals, ranWhileOpen, rejected)
+					}
+				}
+			}()
+		}
+	}
+	addProbe(w, 25, "breaker state-change listeners that take 50 ms: arrivals while the opening failure's listener runs are rejected; no more trials than the capacity while the half-open listener runs", trials, bad, detail)
+	w.Close("circuit breaker state-change listeners that take (virtual) time, with executions arriving while they run. Every case is non-trivial.", nil)
+}
+
+// C16 / C15: what an asynchronous execution's completion listeners were told is what its ExecutionResult gives out -- also when
+// Cancel() was called while it ran and nothing in the composition looked at the cancellation (no policy, a bulkhead, a cache-less
+// stack): the function's own outcome is the execution's outcome, for the listeners and for Get alike.
+func driveAsyncCancelEventProbes(t *testing.T) {
+	w := NewCaseWriterNamed(t, "C16q", "Corr.Probe")
+	trials, bad, detail := 0, 0, ""
+	for _, stack := range []string{"none", "bulkhead", "retry"} {
+		for _, fails := range []bool{false, true} {
+			for _, entry := range []string{"GetAsync", "GetWithExecutionAsync"} {
+				trials++
+				synctest.Test(t, func(t *testing.T) {
+					var pols []failsafe.Policy[int]
+					switch stack {
+					case "bulkhead":
+						pols = append(pols, bulkhead.Builder[int](2).Build())
+					case "retry":
+						pols = append(pols, retrypolicy.Builder[int]().WithMaxRetries(1).Build())
+					}
+					type told struct {
+						r   int
+						err error
+						ok  bool
+					}
+					var done, verdict told
+					ex := failsafe.NewExecutor[int](pols...).
+						OnDone(func(e failsafe.ExecutionDoneEvent[int]) { done = told{e.Result, e.Error, true} }).
+						OnSuccess(func(e failsafe.ExecutionDoneEvent[int]) { verdict = told{e.Result, e.Error, true} }).
+						OnFailure(func(e failsafe.ExecutionDoneEvent[int]) { verdict = told{e.Result, e.Error, false} })
+					fn := func() (int, error) { // ignores the cancellation
+						time.Sleep(100 * time.Millisecond)
+						if fails {
+							return 0, errors.New("failed")
+						}
+						return 7, nil
+					}
+					var ar failsafe.ExecutionResult[int]
+					if entry == "GetAsync" {
+						ar = ex.GetAsync(fn)
+					} else {
+						ar = ex.GetWithExecutionAsync(func(failsafe.Execution[int]) (int, error) { return fn() })
+					}
+					time.Sleep(time.Millisecond)
+					ar.Cancel()
+					r, err := ar.Get()
+					time.Sleep(time.Second)
+					synctest.Wait()
+					r2, err2 := ar.Get()
+					same := func(a, b error) bool { return a == b || (a != nil && b != nil && a.Error() == b.Error()) }
+					if !done.ok || r != done.r || !same(err, done.err) || r != verdict.r || !same(err, verdict.err) || r2 != r || !same(err2, err) {
+						bad++
+						if detail == "" {
+							detail = fmt.Sprintf("%s, stack %s, function fails %v: Get gave (%d, %v), OnDone was told (%d, %v), the verdict listener (%d, %v, success %v)", entry, stack, fails, r, err, done.r, done.err, verdict.r, verdict.err, verdict.ok)
+						}
+					}
+				})
+			}
+		}
+	}
+	addProbe(w, 26, "an asynchronous execution on which Cancel() is called while its function (which ignores the cancellation) runs: Get / a later Get give out what the completion listeners were told", trials, bad, detail)
+	w.Close("asynchronous executions cancelled through their ExecutionResult while a function that ignores the cancellation runs, with no policy, a bulkhead or a retry policy. Every case is non-trivial.", nil)
+}
+
+// C09: user code of the hedge policy that takes time -- the delay function, a cancel predicate.  (i) Two attempts produce acceptable
+// results while the loop is busy in a slow delay function: the caller gets the first one, that attempt is not cancelled, the other
+// one is.  (ii) The last attempts finish close together with results no cancel condition accepts while a slow predicate judges them:
+// the last finisher's result is still delivered.
+func driveSlowHedgeUserCodeProbes(t *testing.T) {
+	w := NewCaseWriterNamed(t, "C09p", "Corr.Probe")
+	trials, bad, detail := 0, 0, ""
+	for _, second := range []time.Duration{30 * time.Millisecond, 20 * time.Millisecond, 45 * time.Millisecond} {
+		trials++
+		synctest.Test(t, func(t *testing.T) {
+			var mu sync.Mutex
+			var execs []failsafe.Execution[int]
+			hp := hedgepolicy.BuilderWithDelayFunc[int](func(e failsafe.ExecutionAttempt[int]) time.Duration {
+				if e.Hedges() >= 1 {
+					time.Sleep(50 * time.Millisecond) // computing the delay before the second hedge takes a while
+				}
+				return 10 * time.Millisecond
+			}).WithMaxHedges(2).Build()
+			r, err := failsafe.NewExecutor[int](hp).GetWithExecution(func(e failsafe.Execution[int]) (int, error) {
+				mu.Lock()
+				k := len(execs)
+				execs = append(execs, e)
+				mu.Unlock()
+				if k == 0 {
+					time.Sleep(30 * time.Millisecond)
+				} else {
+					time.Sleep(second)
+				}
+				return 100 + k, nil
+			})
+			mu.Lock()
+			cancelled := make([]bool, len(execs))
+			for i, e := range execs {
+				cancelled[i] = e.IsCanceled()
+			}
+			mu.Unlock()
+			time.Sleep(time.Second)
+			synctest.Wait()
+			ok := err == nil && (r == 100 || r == 101) && len(cancelled) >= 2
+			if ok {
+				for i, c := range cancelled {
+					if c == (i == r-100) { // the winner is not cancelled, everybody else is
+						ok = false
+					}
+				}
+			}
+			if !ok {
+				bad++
+				if detail == "" {
+					detail = fmt.Sprintf("second attempt takes %v: returned (%d, %v), cancelled at return %v", second, r, err, cancelled)
+				}
+			}
+		})
+	}
+	for _, gap := range []time.Duration{0, 20 * time.Millisecond, 100 * time.Millisecond} {
+		trials++
+		synctest.Test(t, func(t *testing.T) {
+			hp := hedgepolicy.BuilderWithDelay[int](10 * time.Millisecond).WithMaxHedges(1).
+				CancelIf(func(int, error) bool { time.Sleep(150 * time.Millisecond); return false }).Build() // a slow predicate that accepts nothing
+			type out struct {
+				r   int
+				err error
+			}
+			ch := make(chan out, 1)
+			go func() {
+				r, err := failsafe.NewExecutor[int](hp).GetWithExecution(func(e failsafe.Execution[int]) (int, error) {
+					if e.IsHedge() {
+						time.Sleep(90*time.Millisecond + gap)
+						return 2, nil
+					}
+					time.Sleep(100 * time.Millisecond)
+					return 1, nil
+				})
+				ch <- out{r, err}
+			}()
+			select {
+			case o := <-ch:
+				if o.err != nil || (o.r != 1 && o.r != 2) {
+					bad++
+					if detail == "" {
+						detail = fmt.Sprintf("slow predicate, attempts finishing %v apart: returned (%d, %v)", gap, o.r, o.err)
+					}
+				}
+			case <-time.After(time.Minute):
+				bad++
+				if detail == "" {
+					detail = fmt.Sprintf("slow predicate, attempts finishing %v apart: no result delivered although every attempt finished", gap)
+				}
+			}
+		})
+	}
+	addProbe(w, 27, "a hedge policy whose delay function / cancel predicate take time: the first acceptable result wins and only the others are cancelled; the last finisher's result is delivered when nothing is acceptable", trials, bad, detail)
+	w.Close("hedge policies with a slow delay function (two acceptable results arrive while it runs) and a slow cancel predicate that accepts nothing (the last attempts finish while it judges them), under the virtual clock. Every case is non-trivial.", nil)
+}
+
+// C13: a backoff retry policy that an enclosing retry policy re-enters in the middle of its sequence.  The k-th backoff delay of an
+// execution is min(delay * factor^k, maxDelay) however the k retries are spread over entries: the sequence goes on where it was.
+func driveReenteredBackoffProbes(t *testing.T) {
+	w := NewCaseWriterNamed(t, "C13p", "Corr.Probe")
+	trials, bad, detail := 0, 0, ""
+	errA, errB := errors.New("A"), errors.New("B")
+	for _, jitter := range []time.Duration{0, 100 * time.Microsecond} {
+		for _, between := range []string{"", "timeout"} {
+			trials++
+			synctest.Test(t, func(t *testing.T) {
+				var delays []time.Duration
+				ib := retrypolicy.Builder[int]().HandleErrors(errB).WithMaxRetries(6).WithBackoff(time.Millisecond, 64*time.Millisecond).
+					OnRetryScheduled(func(e failsafe.ExecutionScheduledEvent[int]) { delays = append(delays, e.Delay) })
+				if jitter > 0 {
+					ib = ib.WithJitter(jitter)
+				}
+				outer := retrypolicy.Builder[int]().HandleErrors(errA).WithMaxRetries(3).Build()
+				pols := []failsafe.Policy[int]{outer}
+				if between == "timeout" {
+					pols = append(pols, timeout.With[int](time.Hour))
+				}
+				pols = append(pols, ib.Build())
+				script := []error{errB, errB, errA, errB, errB, errA, errB, nil}
+				i := 0
+				failsafe.NewExecutor[int](pols...).Get(func() (int, error) {
+					e := script[i]
+					if i < len(script)-1 {
+						i++
+					}
+					return 0, e
+				})
+				want := []time.Duration{1, 2, 4, 8, 16}
+				ok := len(delays) == len(want)
+				if ok {
+					for k, d := range delays {
+						lo, hi := want[k]*time.Millisecond-jitter, want[k]*time.Millisecond+jitter
+						if d < lo || d > hi {
+							ok = false
+						}
+					}
+				}
+				if !ok {
+					bad++
+					if detail == "" {
+						detail = fmt.Sprintf("jitter %v, %q between the two retry policies: backoff delays %v, want 1ms 2ms 4ms 8ms 16ms (within the jitter)", jitter, between, delays)
+					}
+				}
+			})
+		}
+	}
+	addProbe(w, 28, "a backoff retry policy re-entered by an enclosing retry policy: the backoff sequence goes on where it was (1, 2, 4, 8, 16 ms)", trials, bad, detail)
+	w.Close("nested retry policies, the inner one with a backoff, re-entered by the outer one after errors only the outer one handles; OnRetryScheduled delays of the inner policy. Every case is non-trivial.", nil)
+}
+
+// C08: Retry(Hedge(P(fn))) with a policy P inside the hedge that looks at the cancellation of its attempt (an inner retry policy,
+// a rate limiter wait).  The hedged run ends with a failure and cancels its loser, which leaves P on P's cancellation path; the
+// outer retry policy schedules a retry in 3 s; during that delay the execution is cancelled from outside: it ends promptly and
+// the caller gets the cause of THAT cancellation (one source: nothing else cancelled the execution).
+func driveCancelAfterHedgeLoserProbes(t *testing.T) {
+	w := NewCaseWriterNamed(t, "C08p", "Corr.Probe")
+	trials, bad, detail := 0, 0, ""
+	errAttempt, errTransient := errors.New("attempt failed"), errors.New("transient")
+	for _, inside := range []string{"retry", "limiter"} {
+		for _, source := range []string{"deadline", "cancel", "async-cancel"} {
+			trials++
+			synctest.Test(t, func(t *testing.T) {
+				var p failsafe.Policy[int]
+				if inside == "retry" {
+					p = retrypolicy.Builder[int]().HandleErrors(errTransient).WithDelay(10 * time.Millisecond).Build()
+				} else {
+					p = ratelimiter.SmoothBuilder[int](1, 2*time.Second).WithMaxWaitTime(10 * time.Second).Build()
+				}
+				rp := retrypolicy.Builder[int]().WithDelay(3 * time.Second).WithMaxRetries(2).Build()
+				hp := hedgepolicy.BuilderWithDelay[int](20 * time.Millisecond).Build()
+				fn := func(e failsafe.Execution[int]) (int, error) { // a cooperating attempt that takes 60 ms and fails
+					select {
+					case <-time.After(60 * time.Millisecond):
+					case <-e.Canceled():
+					}
+					return 0, errAttempt
+				}
+				ctx := context.Background()
+				var cancel context.CancelFunc = func() {}
+				var want error
+				switch source {
+				case "deadline":
+					ctx, cancel = context.WithTimeout(ctx, 400*time.Millisecond)
+					want = context.DeadlineExceeded
+				case "cancel":
+					ctx, cancel = context.WithCancel(ctx)
+					time.AfterFunc(400*time.Millisecond, cancel)
+					want = context.Canceled
+				default:
+					want = failsafe.ErrExecutionCanceled
+				}
+				defer cancel()
+				t0 := time.Now()
+				ex := failsafe.NewExecutor[int](rp, hp, p).WithContext(ctx)
+				var err error
+				if source == "async-cancel" {
+					ar := ex.GetWithExecutionAsync(fn)
+					time.AfterFunc(400*time.Millisecond, ar.Cancel)
+					_, err = ar.Get()
+				} else {
+					_, err = ex.GetWithExecution(fn)
+				}
+				took := time.Since(t0)
+				time.Sleep(time.Minute)
+				synctest.Wait()
+				if !errors.Is(err, want) || took != 400*time.Millisecond {
+					bad++
+					if detail == "" {
+						detail = fmt.Sprintf("%s inside the hedge, %s at 400ms: ended after %v with %v (want %v at 400ms)", inside, source, took, err, want)
+					}
+				}
+			})
+		}
+	}
+	addProbe(w, 29, "Retry(Hedge(P(fn))), cancelled from outside during the outer retry delay after a hedged run whose loser left P through its cancellation path: ends at the cancellation with its cause", trials, bad, detail)
+	w.Close("a retry policy around a hedge policy around an inner retry policy / a rate limiter, under the virtual clock; deadline, context cancellation and ExecutionResult.Cancel() during the outer retry delay. Every case is non-trivial.", nil)
 }
